@@ -44,7 +44,8 @@ RULE = ("e2e cases: methods (incl. extension methods) x request-targets with per
         "members (one empty; a member followed by garbage) and other Content-Encoding shapes (GZIP, x-gzip, `deflate, gzip` as one value or two lines, `gzip, gzip`, identity, "
         "deflate, br, `br, gzip`, `gzip, br`) x response limits at pool / proxy level ((-1,L) (L,-1) (0,L) (L,0) (-1,0) (0,-1) (L,2L) (2L,L) (-1,-1), bodies at L-1/L/L+1/3L) (negative values -1, -2, -1024, MinInt64+1 at client, pool and proxy level: any negative streams) x a mirrorPool on a second backend matching X-Mirror "
         "(1 case in 6) x uploads the client "
-        "cuts off (announced length not reached, chunked without last-chunk; buffered and stream mode) x load-balance policy (none, roundRobin, random, weightedRandom with/without weights, ipHash, headerHash; one or two "
+        "cuts off (announced length not reached, chunked without last-chunk; buffered and stream mode) x a RequestAdaptor path rule that changes nothing (1 in 6; the backend's request-target must be the client's escaped path and raw query) x a server discovered "
+        "through a service registry (mock supervisor with a ServiceRegistry system controller; 1 in 6) x load-balance policy (none, roundRobin, random, weightedRandom with/without weights, ipHash, headerHash; one or two "
         "identical servers) for the Host rule; one case in 20 follows a label schedule (every Content-Encoding shape x ResponseAdaptor decompress buffered/stream, "
         "proxy compression, ResponseAdaptor compress, untouched); one case in 20 follows a boundary schedule: every body-transforming path (proxy compression, transparent gunzip, "
         "Request/ResponseAdaptor compress and decompress, pass-through; buffered and stream) with a (decoded) body of exactly k x the gzip reader's round "
